@@ -47,6 +47,9 @@ pub struct GetResult {
     pub rejected: usize,
     pub elements: usize,
     pub expected: Side,
+    /// Reprs of the twin's deserialized inner values BEFORE the constructor (None if the twin
+    /// failed to deserialize).
+    pub b_raw: Option<Vec<String>>,
     pub used_fallthrough: bool,
     pub log_a: ReadLog,
     pub log_b: ReadLog,
@@ -103,13 +106,16 @@ struct GetVisitor<'r> {
     reader: &'r SimReader,
 }
 
-fn construct_all<D: Decl>(els: Vec<D::Twin>) -> (Result<Vec<String>, String>, usize, usize) {
+fn construct_all<D: Decl>(els: Vec<D::Twin>) -> (Result<Vec<String>, String>, usize, usize, Vec<String>) {
     let n = els.len();
     let mut out = Vec::with_capacity(n);
+    let mut raw = Vec::with_capacity(n);
     let mut rejected = 0usize;
     let mut first_err: Option<String> = None;
     for tw in els {
-        match D::lift(D::twin_unwrap(tw)).and_then(D::construct) {
+        let ti = D::twin_unwrap(tw);
+        raw.push(D::repr_raw(&ti));
+        match D::lift(ti).and_then(D::construct) {
             Ok(t) => out.push(D::repr(&t.into_inner())),
             Err(e) => {
                 rejected += 1;
@@ -118,8 +124,8 @@ fn construct_all<D: Decl>(els: Vec<D::Twin>) -> (Result<Vec<String>, String>, us
         }
     }
     match first_err {
-        None => (Ok(out), rejected, n),
-        Some(e) => (Err(e), rejected, n),
+        None => (Ok(out), rejected, n, raw),
+        Some(e) => (Err(e), rejected, n, raw),
     }
 }
 
@@ -153,15 +159,17 @@ impl<'r, D: Decl> ShapeVisitor<D> for GetVisitor<'r> {
         let mut used_fallthrough = false;
         let mut rejected = 0;
         let mut elements = 0;
+        let mut b_raw = None;
         let expected = match b {
             Err(e) => Side::Err(format!("twin: {e}")),
             Ok(h) => {
                 let (els, aux) = split_b(h);
                 match catch_unwind(AssertUnwindSafe(|| construct_all::<D>(els))) {
                     Err(p) => Side::Panic(panic_message(&p)),
-                    Ok((r, rej, n)) => {
+                    Ok((r, rej, n, raw)) => {
                         rejected = rej;
                         elements = n;
+                        b_raw = Some(raw);
                         match r {
                             Ok(v) => Side::Ok(v, aux),
                             Err(e) => match fallthrough {
@@ -186,6 +194,7 @@ impl<'r, D: Decl> ShapeVisitor<D> for GetVisitor<'r> {
             rejected,
             elements,
             expected,
+            b_raw,
             used_fallthrough,
             unread_a: ra.remaining(),
             unread_b: rb.remaining(),
@@ -263,6 +272,7 @@ pub fn diff_stream<D: Decl>(reader: &SimReader) -> GetResult {
         rejected,
         elements,
         expected,
+        b_raw: None,
         used_fallthrough: false,
         unread_a: ra.remaining(),
         unread_b: rb.remaining(),
